@@ -58,15 +58,18 @@ fn zz_block_raw_backward() {
     assert!(eq4(&y, &z));
 }
 
-// 32 bytes is NOT too short
+// 32 bytes is NOT too short (w_short with the enumeration extended to n = 32)
 // @ob name=zz_wshort_32 props=C18 fn=belt_block::belt_wblock_enc timeout=600
 #[kani::proof]
+#[kani::stub(belt_block_raw, crate::__vp_lib::trb::block)]
 #[kani::unwind(70)]
 fn zz_wshort_32() {
     let key: [u32; 8] = kani::any();
     let arr: [u8; 32] = kani::any();
-    let mut d = arr;
-    let n: usize = kani::any();
-    kani::assume(n <= 32);
-    assert!(belt_wblock_enc(&mut d[..n], &key).is_err());
+    let mut n = 0usize;
+    while n <= 32 {
+        let mut d = arr;
+        assert!(belt_wblock_enc(&mut d[..n], &key).is_err());
+        n += 1;
+    }
 }
